@@ -293,6 +293,39 @@ for _c in CHECKS:
         _c["text"] = _c["text"] + " " + EXTRA6[_c["id"]]
     _c["text"] = _c["text"] + " The library's DEBUG logging is on (records formatted and dropped) in every fourth shard of the quick tier and in all shards of the thorough tier, disabled in the others."
 
+EXTRA7 = {
+    "C01": "The implementation's own identifiers (every attribute name of every module and class, harvested at run time) as entry type, key, field key, string name and bare value; keys that differ only in letter case.",
+    "C02": "The implementation's own identifiers wherever the grammar takes a name; block headers across window boundaries; groups nested 10 .. 5000 deep in every block kind.",
+    "C04": "Middles padded so that the suffix's header lies across offsets 4096 .. 2^20; a middle that repeats a field key before it breaks off.",
+    "C05": "Documents of 999 .. 4100 entries.",
+    "C06": "One format object edited between writes (every ordered pair of settings and back); documents of 1000 .. 4100 entries.",
+    "C07": "An invalid name in a later name field; every pool middleware and the write laws on libraries of 255 .. 1025 blocks.",
+    "C08": "Calls that may raise anything (unhashable keys), judged view against view; a Library subclass that hands out copies of its block list.",
+    "C09": "A second document's duplicates must expose the live first block; blocks removed through equal twins; keys differing only in letter case; entries of 1 .. 40 and 63 .. 258 fields.",
+    "C10": "Switches given as 0 / 1; digits with white space, signs, separators; digit strings of 639 .. 5000 digits; construction order.",
+    "C11": "String names, contents and field keys of length 1 .. 4097.",
+    "C12": "Separate - merge - separate again on the same entry.",
+    "C13": "The same list of persons again through one instance; brace groups nested 10 .. 5000 deep.",
+    "C14": "Two name fields with one middleware instance per field.",
+    "C15": "Construction order of the three middlewares.",
+    "C16": "preserve_comments_on_top given as 1 / 0; libraries of 255 .. 3100 blocks with comment runs around every power of two; construction order.",
+    "C17": "Many entries / colliding pairs / fields (15 .. 1025) through one instance; construction order.",
+    "C18": "A user's Entry subclass that is sized and iterable; construction order of all encoder / decoder configurations against references from fresh interpreters; values of length 255 .. 8200.",
+    "C19": "Histories that start from entries processed by the shipped middlewares (their marks in the metadata); entries of 1 .. 20 and 31 .. 258 fields.",
+    "C20": "Block-middleware passes (tagging, doubling, dropping, chained) over libraries of 255 .. 4099 blocks.",
+}
+for _c in CHECKS:
+    if _c["id"] in EXTRA7:
+        _c["text"] = _c["text"] + " " + EXTRA7[_c["id"]]
+    _c["text"] = _c["text"] + (
+        " Environments: the check's broad, cheap families (ENV_SHARDS) are run again in a fresh interpreter for each of 12 environments"
+        " (hash seeds 1 .. 12; a C locale without UTF-8 mode; submodules imported in reverse order with the collector off; an eager collector"
+        " under python -O; the integer-string limit lowered to 640 digits after import), judged by the same oracles."
+    )
+    if "construction order" in EXTRA7.get(_c["id"], ""):
+        _c["technique"] = _c["technique"] + "; ordered pairs of configurations against per-configuration references from fresh interpreters"
+    _c["technique"] = _c["technique"] + "; exhaustive over a stated set of 12 interpreter environments for the ENV_SHARDS families"
+
 CHECKS.sort(key=lambda c: c["id"])
 
 _claimed = {c["id"] for c in CHECKS}
